@@ -25,7 +25,8 @@ ASSUMPTIONS = [
 REQUIRED = {"subproblems": 20000, "postconditions": 20000,
             "solver_posed_subproblems": 2000}
 MIN_NONTRIVIAL = {"quick": 200, "thorough": 1000}
-PLAN = [("fuzz", 64, 1600), ("real", 300, 4000), ("repotests", 1, 1)]
+PLAN = [("fuzz", 64, 1600), ("real", 300, 4000), ("ulp_ties", 16, 200),
+        ("repotests", 1, 1)]
 PROP = "C15"
 
 
@@ -39,6 +40,8 @@ worker_init = subdrive.worker_init
 def run_case(case):
     if case["fam"] == "fuzz":
         return subdrive.fuzz_case(case, PROP)
+    if case["fam"] == "ulp_ties":
+        return subdrive.ulp_case(case, PROP)
     if case["fam"] == "repotests":
         from vlib import repotests
         viols, counts = repotests.run(PROP)
